@@ -643,6 +643,32 @@ func runIfaceWord(c *core.Ctx) []core.Obligation {
 				missing = append(missing, kindNames[k])
 			}
 		}
+		// the composite kinds are pointer-shaped exactly when their single component is, at any
+		// depth: their arm must ask the predicate itself about the component type
+		var shallow []string
+		for _, k := range spec.want {
+			if k != 25 && k != 17 {
+				continue
+			}
+			recurses := false
+			for _, blk := range fn.Blocks {
+				if flow[blk] != 1<<uint(k) {
+					continue
+				}
+				for _, ci := range callsIn2(blk) {
+					if staticCallee(ci.Common()) == fn {
+						recurses = true
+					}
+				}
+			}
+			if !recurses && truthy&(1<<uint(k)) != 0 {
+				shallow = append(shallow, kindNames[k])
+			}
+		}
+		if len(shallow) > 0 && len(missing) == 0 {
+			b.addP(spec.props, core.Violation, key, c.FuncPos(fn), fmt.Sprintf("%s decides kind(s) %v without asking itself about the component type: a one-element array (single-field struct) is pointer-shaped whenever its component is — a map, a single-pointer struct, another such array — not only when the component is a pointer; for the others the codec dereferences the interface's data word as if it pointed to the value (nil dereference or a fatal \"invalid pointer found on stack\")", spec.fn, shallow))
+			continue
+		}
 		if len(missing) > 0 {
 			b.addP(spec.props, core.Violation, key, c.FuncPos(fn), fmt.Sprintf("%s can only return false for kind(s) %v, yet an interface holding such a type (when it is pointer-shaped: one pointer-shaped field / element) stores the value itself in its data word: the codec then dereferences the pointee as if it were the container (wrong output or SIGSEGV)", spec.fn, missing))
 		} else {
